@@ -1,6 +1,7 @@
 import CliUtils.Drv.Util
 import CliUtils.Drv.C19
 import CliUtils.Drv.C15
+import CliUtils.Drv.C06
 /-
   Line-protocol driver.  stdin: one JSON object per line  {"d": domain, "i": input, "o": implementation output}
   stdout: one line per case that needs attention, then one summary line.
@@ -12,7 +13,8 @@ def handlers : List (String × Handler) := [
   ("mgr", C19.handleMgr),
   ("idstr", C15.handleIdstr),
   ("invstore", C15.handleInvstore),
-  ("dep", C15.handleDep)
+  ("dep", C15.handleDep),
+  ("wait", C06.handleWait)
 ]
 
 structure Stats where
